@@ -493,7 +493,8 @@ def hmc(
 
     def assess_momentum(momentum_val):
         """Compute log probability of momentum (standard normal)."""
-        return normal.logpdf(momentum_val, 0.0, 1.0)
+        # Sum over all coordinates to get the scalar kinetic log density
+        return jnp.sum(normal.logpdf(momentum_val, 0.0, 1.0))
 
     # Initial model score (negative potential energy)
     prev_model_score = log_density_wrt_selected(selected_choices)
